@@ -818,7 +818,14 @@ func (ld *Loaded) inferDiscipline(pkg, typ string, st *types.Struct, i int) stri
 			if _, seen := okFn[k]; !seen {
 				okFn[k] = true
 			}
-			if a.fn != rootFn(a.fn) || !freshFromCtor(a.fa.X, pkg, ctors) {
+			if a.fn != rootFn(a.fn) {
+				// a store inside a closure: fine if the enclosing function returns the same
+				// function type as one of the declared constructors does (a further functional
+				// option next to WithX: such closures are applied where the others are)
+				if !ld.siblingOption(rootFn(a.fn), pkg, ctors) {
+					okFn[k] = false
+				}
+			} else if !freshFromCtor(a.fa.X, pkg, ctors) {
 				okFn[k] = false
 			}
 			cand[k] = true
@@ -845,6 +852,30 @@ func (ld *Loaded) inferDiscipline(pkg, typ string, st *types.Struct, i int) stri
 		}
 	}
 	return ""
+}
+
+// siblingOption: fn returns a value of a named function type, and so does one of the declared
+// constructors (with the identical type).
+func (ld *Loaded) siblingOption(fn *ssa.Function, pkg string, ctors map[string]bool) bool {
+	res := fn.Signature.Results()
+	if res.Len() != 1 {
+		return false
+	}
+	nt, ok := res.At(0).Type().(*types.Named)
+	if !ok {
+		return false
+	}
+	if _, isFunc := nt.Underlying().(*types.Signature); !isFunc {
+		return false
+	}
+	for c := range ctors {
+		for _, f := range ld.fnByKey[qualifyFuncName(c, pkg)] {
+			if r := f.Signature.Results(); r.Len() == 1 && types.Identical(r.At(0).Type(), nt) {
+				return true
+			}
+		}
+	}
+	return false
 }
 
 // freshFromCtor: the value is the result of a call of one of the constructors in the same function
